@@ -213,6 +213,9 @@ impl Directive {
                             Ok(value) => value,
                             Err(e) => bail!("{} in {}", e, point),
                         };
+                        if value < 0 || value > std::u32::MAX as i64 {
+                            bail!(".org address {} is out of range in {}", value, point);
+                        }
                         if !context.last_segment().unwrap().borrow().is_empty() {
                             let current_type = context.last_segment().unwrap().borrow().t;
                             context.add_segment(Segment::new(current_type));
